@@ -28,8 +28,12 @@ def request_bytes(tie_resources=False):
         svc = G.add_service(fd, s)
         for m in ("Get", "List", "Purge"):
             G.add_method(svc, m + s, ".acme.lab.v1.Req", ".acme.lab.v1.Resp", http=("get", "/v1/{name=%s/*}" % (s.lower() + m.lower())), signatures=["name,alpha"])
+        # several path variables in one binding (the implicit routing header lists them in template order)
+        G.add_method(svc, "Locate" + s, ".acme.lab.v1.Req", ".acme.lab.v1.Resp", http=("get", "/v1/x/{name}/zones/{alpha}/racks/{delta}/units/{ref0}/%s" % s.lower()))
     req = plugin_pb2.CodeGeneratorRequest(parameter="transport=grpc+rest,metadata")
-    req.proto_file.extend(G.dep_files())
+    from google.iam.v1 import iam_policy_pb2
+    from google.cloud.location import locations_pb2
+    req.proto_file.extend(G.dep_files((iam_policy_pb2, locations_pb2)))
     req.proto_file.append(fd)
     req.file_to_generate.append(fd.name)
     return req.SerializeToString()
@@ -59,6 +63,21 @@ def compare(tie, seeds):
         raw = request_bytes(tie)
         req = plugin_pb2.CodeGeneratorRequest.FromString(raw)
         req.parameter += f",retry-config={cfg}"
+        # a service yaml with mixin APIs and several http rules per mixin service
+        ycfg = os.path.join(d, "service.yaml")
+        json.dump({"type": "google.api.Service", "config_version": 3, "name": "lab.example.com",
+                   "apis": [{"name": "google.cloud.location.Locations"}, {"name": "google.longrunning.Operations"}, {"name": "google.iam.v1.IAMPolicy"}],
+                   "http": {"rules": [{"selector": "google.cloud.location.Locations.ListLocations", "get": "/v1/{name=projects/*}/locations"},
+                                      {"selector": "google.cloud.location.Locations.GetLocation", "get": "/v1/{name=projects/*/locations/*}"},
+                                      {"selector": "google.longrunning.Operations.ListOperations", "get": "/v1/{name=operations}"},
+                                      {"selector": "google.longrunning.Operations.GetOperation", "get": "/v1/{name=operations/*}"},
+                                      {"selector": "google.longrunning.Operations.DeleteOperation", "delete": "/v1/{name=operations/*}"},
+                                      {"selector": "google.longrunning.Operations.CancelOperation", "post": "/v1/{name=operations/*}:cancel", "body": "*"},
+                                      {"selector": "google.iam.v1.IAMPolicy.SetIamPolicy", "post": "/v1/{resource=shelves/*}:setIamPolicy", "body": "*"},
+                                      {"selector": "google.iam.v1.IAMPolicy.GetIamPolicy", "get": "/v1/{resource=shelves/*}:getIamPolicy"},
+                                      {"selector": "google.iam.v1.IAMPolicy.TestIamPermissions", "post": "/v1/{resource=shelves/*}:testIamPermissions", "body": "*"}]}},
+                  open(ycfg, "w"))
+        req.parameter += f",service-yaml={ycfg}"
         reqfile = os.path.join(d, "req.bin")
         open(reqfile, "wb").write(req.SerializeToString())
         outs = {}
